@@ -332,6 +332,64 @@ func line(k string, l layout, vals []int, arg int) string {
 	return fmt.Sprintf("%s %d %d %s %d", k, l.pre, l.extra, tr.Ints(vals), arg)
 }
 
+func gcd(a, b int) int {
+	for b != 0 {
+		a, b = b, a%b
+	}
+	return a
+}
+
+// emit runs one case and counts, besides the generator's own tag, the states the property text
+// names that the case reaches.
+func emit(g *tr.G, k string, l layout, vals []int, arg int, nontrivial bool, tag string) {
+	n := len(vals)
+	tags := []string{tag}
+	add := func(c bool, t string) {
+		if c {
+			tags = append(tags, t)
+		}
+	}
+	spare := l.pre >= 0 && l.extra > 0
+	add(n == 0 && k != "S", "state:empty-slice")
+	add(n == 1, "state:single-element")
+	switch k {
+	case "P":
+		kept := 0
+		for _, v := range vals {
+			if v >= 0 && v < 62 && (arg>>uint(v))&1 == 1 {
+				kept++
+			}
+		}
+		add(n > 0 && kept == n && spare, "state:partition-all-kept-spare-capacity")
+		add(n > 0 && kept == 0 && spare, "state:partition-none-kept-spare-capacity")
+		add(n == 0 && spare, "state:partition-empty-spare-capacity")
+		add(kept > 0 && kept < n && spare, "state:partition-mixed-spare-capacity")
+	case "R":
+		add(n > 0 && (arg == n || arg == -n), "state:rotate-k-is-plus-minus-n")
+		add(arg == 0, "state:rotate-k-0")
+		add(n > 0 && arg > -n && arg < n && arg != 0 && gcd(max(arg, -arg), n) > 1, "state:rotate-several-cycles")
+		add(arg < -n || arg > n, "state:rotate-k-out-of-range")
+	case "C":
+		add(arg >= 0 && (arg == 0 || arg >= n) && spare, "state:chunks-early-return-spare-capacity")
+		add(arg > 0 && arg < n && n%arg != 0, "state:chunks-short-last-chunk")
+		add(arg > 0 && arg < n && spare, "state:chunks-loop-spare-capacity")
+		add(arg < 0, "state:negative-count")
+	case "B":
+		add(arg > n, "state:batches-n-above-len")
+		add(arg > 0 && arg <= n && n%arg != 0, "state:batches-uneven")
+		add(arg > 0 && n == 0, "state:batches-empty-slice-F3")
+		add(arg > 0 && n > 0 && spare, "state:batches-spare-capacity")
+		add(arg < 0, "state:negative-count")
+	case "H", "T":
+		add(arg > n, "state:head-tail-n-above-len")
+		add(arg < 0, "state:negative-count")
+	case "A", "Q":
+		add(arg < 0 && arg >= -n, "state:at-negative-index")
+		add(arg == n || arg == -n-1, "state:at-just-out-of-range")
+	}
+	g.Emit(line(k, l, vals, arg), nontrivial, tags...)
+}
+
 func main() {
 	tr.Main("C17: exhaustive small scope - every length n <= 10 (quick) / 12 (thorough) under three base layouts (no slack; 2 elements before and 3 spare after; 4 spare after) plus the nil slice: every keep mask for Partition, every k in [-n-2, n+2] for Rotate (n <= 40/64), every chunk size / batch count in [-2, n+3], every Head/Tail count in [-2, n+extra+3], every At/PtrAt index in [-n-2, n+2], Stripe over all tuples of up to three lists of length <= 3; then random larger cases (duplicate values, lengths to 200). Returned slices are observed as offset/len/append-overwrites-input; the whole base array is re-read after every call. A case is non-trivial when the slice has at least two elements; distinct = distinct input lines.",
 		exec, func(g *tr.G) {
@@ -344,7 +402,7 @@ func main() {
 			nl := layout{-1, 0}
 			for _, k := range []string{"P", "R", "C", "B", "H", "T", "A", "Q"} {
 				for a := -2; a <= 2; a++ {
-					g.Emit(line(k, nl, nil, a), false, "nil-slice")
+					emit(g, k, nl, nil, a, false, "nil-slice")
 				}
 			}
 			for n := 0; n <= N; n++ {
@@ -354,19 +412,19 @@ func main() {
 						continue
 					}
 					for m := 0; m < 1<<uint(n); m++ {
-						g.Emit(line("P", l, vals, m), n >= 2, "partition-exhaustive")
+						emit(g, "P", l, vals, m, n >= 2, "partition-exhaustive")
 					}
 					for a := -2; a <= n+3; a++ {
-						g.Emit(line("C", l, vals, a), n >= 2, "chunks-exhaustive")
-						g.Emit(line("B", l, vals, a), n >= 2, "batches-exhaustive")
+						emit(g, "C", l, vals, a, n >= 2, "chunks-exhaustive")
+						emit(g, "B", l, vals, a, n >= 2, "batches-exhaustive")
 					}
 					for a := -2; a <= n+l.extra+3; a++ {
-						g.Emit(line("H", l, vals, a), n >= 2, "head-tail-exhaustive")
-						g.Emit(line("T", l, vals, a), n >= 2, "head-tail-exhaustive")
+						emit(g, "H", l, vals, a, n >= 2, "head-tail-exhaustive")
+						emit(g, "T", l, vals, a, n >= 2, "head-tail-exhaustive")
 					}
 					for a := -n - 2; a <= n+2; a++ {
-						g.Emit(line("A", l, vals, a), n >= 2, "at-exhaustive")
-						g.Emit(line("Q", l, vals, a), n >= 2, "at-exhaustive")
+						emit(g, "A", l, vals, a, n >= 2, "at-exhaustive")
+						emit(g, "Q", l, vals, a, n >= 2, "at-exhaustive")
 					}
 				}
 			}
@@ -381,7 +439,7 @@ func main() {
 						if k < -n || k > n {
 							tag = "rotate-out-of-range"
 						}
-						g.Emit(line("R", l, vals, k), n >= 2, tag)
+						emit(g, "R", l, vals, k, n >= 2, tag)
 					}
 				}
 			}
@@ -394,7 +452,7 @@ func main() {
 				for _, l := range layouts {
 					for _, a := range ext {
 						for _, k := range []string{"R", "C", "B", "H", "T", "A", "Q"} {
-							g.Emit(line(k, l, vals, a), n >= 2, "extreme-int")
+							emit(g, k, l, vals, a, n >= 2, "extreme-int")
 						}
 					}
 				}
@@ -442,7 +500,7 @@ func main() {
 				case 2:
 					mask &= g.R.Intn(1 << 12)
 				}
-				g.Emit(line("P", l, vals, mask), n >= 2, "partition-random")
+				emit(g, "P", l, vals, mask, n >= 2, "partition-random")
 				big := rnd(200, 1000)
 				nb := len(big)
 				k := g.R.Range(-nb-1, nb+1)
@@ -456,14 +514,14 @@ func main() {
 						k = -k
 					}
 				}
-				g.Emit(line("R", l, big, k), nb >= 2, "rotate-random")
+				emit(g, "R", l, big, k, nb >= 2, "rotate-random")
 				a := g.R.Range(-1, n+2)
-				g.Emit(line("C", l, vals, a), n >= 2, "chunks-random")
-				g.Emit(line("B", l, vals, a), n >= 2, "batches-random")
-				g.Emit(line("H", l, vals, g.R.Range(-1, n+l.extra+2)), n >= 2, "head-tail-random")
-				g.Emit(line("T", l, vals, g.R.Range(-1, n+l.extra+2)), n >= 2, "head-tail-random")
-				g.Emit(line("A", l, vals, g.R.Range(-n-1, n+1)), n >= 2, "at-random")
-				g.Emit(line("Q", l, vals, g.R.Range(-n-1, n+1)), n >= 2, "at-random")
+				emit(g, "C", l, vals, a, n >= 2, "chunks-random")
+				emit(g, "B", l, vals, a, n >= 2, "batches-random")
+				emit(g, "H", l, vals, g.R.Range(-1, n+l.extra+2), n >= 2, "head-tail-random")
+				emit(g, "T", l, vals, g.R.Range(-1, n+l.extra+2), n >= 2, "head-tail-random")
+				emit(g, "A", l, vals, g.R.Range(-n-1, n+1), n >= 2, "at-random")
+				emit(g, "Q", l, vals, g.R.Range(-n-1, n+1), n >= 2, "at-random")
 				nl := g.R.Intn(6)
 				parts := make([]string, nl)
 				for j := range parts {
@@ -482,8 +540,8 @@ func main() {
 func genExtra(g *tr.G) {
 	for n := 0; n <= 6; n++ {
 		for _, l := range layouts {
-			g.Emit(line("Z", l, iota(n), 0), n >= 1, "zero")
-			g.Emit(line("V", l, iota(n), 0), n >= 2, "reverse")
+			emit(g, "Z", l, iota(n), 0, n >= 1, "zero")
+			emit(g, "V", l, iota(n), 0, n >= 2, "reverse")
 		}
 		for mask := 0; mask < 1<<uint(n); mask++ {
 			for m := -1; m <= n+1; m++ {
@@ -495,7 +553,7 @@ func genExtra(g *tr.G) {
 	var rec func(cur []int)
 	rec = func(cur []int) {
 		for _, l := range layouts {
-			g.Emit(line("D", l, cur, 0), len(cur) >= 2, "dedup-exhaustive")
+			emit(g, "D", l, cur, 0, len(cur) >= 2, "dedup-exhaustive")
 		}
 		if len(cur) == 6 {
 			return
@@ -526,8 +584,8 @@ func genExtra(g *tr.G) {
 			big[i] = g.R.Intn(14)
 		}
 		g.Emit(fmt.Sprintf("L %s %d %d", tr.Ints(big), mask, g.R.Range(-1, len(big)+1)), len(big) >= 2, "select-random")
-		g.Emit(line("D", layout{g.R.Intn(3), g.R.Intn(4)}, big, 0), len(big) >= 2, "dedup-random")
-		g.Emit(line("Z", layout{g.R.Intn(3), g.R.Intn(4)}, big, 0), len(big) >= 1, "zero")
-		g.Emit(line("V", layout{g.R.Intn(3), g.R.Intn(4)}, big, 0), len(big) >= 2, "reverse")
+		emit(g, "D", layout{g.R.Intn(3), g.R.Intn(4)}, big, 0, len(big) >= 2, "dedup-random")
+		emit(g, "Z", layout{g.R.Intn(3), g.R.Intn(4)}, big, 0, len(big) >= 1, "zero")
+		emit(g, "V", layout{g.R.Intn(3), g.R.Intn(4)}, big, 0, len(big) >= 2, "reverse")
 	}
 }
